@@ -19,8 +19,10 @@ destination, and the encoder's output paths.
   header value it keeps between sequences.
 
 Every function takes the fault schedule `F`; `noFault` is the schedule of a healthy destination.
-A Go error is `ok = false`; there is no panic outcome because none of these paths indexes or slices with a
-computed bound (tied by the `enc-faults` family: a panic of the implementation is a disagreement).
+A Go error is `ok = false`. The operations of these paths that CAN panic (slices with a computed bound, indexing, a nil
+writer, offset arithmetic) are guarded one by one in `FitModel/WriterPanic.lean` (outcome `Run.panic`), which delegates
+the effect of an operation whose guard holds to the functions of this file; `C11_no_panic` proves that no guard ever fails.
+`EncodeWithContext` (cancellation points, what a cancelled call leaves behind) is at the end of this file.
 `e.n` is an int64 and never wraps here; `dataSize` is a uint32 (`% 2^32`).
 -/
 namespace Fit.Writer
@@ -419,6 +421,8 @@ def Stream.new (o : Opts) (kind : Kind) (size : Nat) (d : Dest) : Stream := { e 
 
 /-- result classes of an API call -/
 inductive Res | ok | err | ep | ee | ev
+  /-- `ctx.Err()` of a cancelled context (`EncodeWithContext` only) -/
+  | ec
   deriving DecidableEq, Repr
 
 /-- a message validator as the encoder uses it: `Reset()` = back to `init`; `Validate(&m)` advances the state and
@@ -482,6 +486,123 @@ def Stream.sequenceCompletedV {σ : Type} (V : MsgValidator σ) (F : Faults) (c 
   if !r2.2.2 then ({ s with e := r2.1, hdrDs := r2.2.1 }, vs, .err) else
   let r := s.sequenceCompleted F c o h
   (r.1, V.init, if r.2 then .ok else .err)
+
+
+/-! ### `EncodeWithContext` (encoder.go: the `…WithContext` duplicates of the output paths)
+
+The context is polled once per message, before the message is encoded (`select { case <-ctx.Done(): return ctx.Err() … }` at the
+top of the loop body of `encodeMessagesWithContext`) — in the dry run of the early-check strategy and in the real pass.
+A context is modelled by the number of polls that still find it open. -/
+
+/-- `none`: never cancelled (e.g. `context.Background()`); `some k`: the first `k` polls of `ctx.Done()` find the context open,
+every later one finds it cancelled -/
+abbrev Ctx := Option Nat
+
+/-- the context after one poll that found it open -/
+def Ctx.tick : Ctx → Ctx
+  | some (k + 1) => some k
+  | c => c
+
+def Ctx.cancelled : Ctx → Bool
+  | some 0 => true
+  | _ => false
+
+/-- `encodeMessagesWithContext`: `.ok`, `.err` (a write failed) or `.ec` (`ctx.Err()`); nothing is written, flushed or
+undone when the cancellation is observed -/
+def encodeMessagesCtx (F : Faults) (o : Opts) : Ctx → Enc → List WMsg → Enc × Ctx × Res
+  | c, e, [] => (e, c, .ok)
+  | c, e, m :: ms =>
+    if c.cancelled then (e, c, .ec)
+    else
+      let r := encodeMessage F o e m
+      if r.2 then encodeMessagesCtx F o c.tick r.1 ms else (r.1, c.tick, .err)
+
+/-- the dry run under a context (`calculateDataSizeWithContext`): `none` when the cancellation is observed -/
+def dryPassCtx (o : Opts) : Ctx → EncState → Nat → List WMsg → Ctx × Option (Nat × List WMsg)
+  | c, _, ds, [] => (c, some (ds, []))
+  | c, s, ds, m :: ms =>
+    if c.cancelled then (c, none)
+    else
+      let r := dryMessage o s m
+      let rest := dryPassCtx o c.tick r.1 ((ds + r.2.1) % 4294967296) ms
+      (rest.1, rest.2.map fun t => (t.1, r.2.2 :: t.2))
+
+/-- header, messages under the context, CRC (the part the two `…WithContext` strategies share) -/
+def encodeBodyCtx (F : Faults) (o : Opts) (c : Ctx) (e : Enc) (h : Hdr) (ds : Nat) (ms : List WMsg) : Enc × Ctx × Res :=
+  let r1 := encodeFileHeader F e h ds
+  if !r1.2 then (r1.1, c, .err) else
+  let r2 := encodeMessagesCtx F o c r1.1 ms
+  if r2.2.2 != .ok then r2 else
+  let r3 := encodeCRC F r2.1
+  (r3.1, r2.2.1, if r3.2 then .ok else .err)
+
+/-- `encodeWithDirectUpdateStrategyWithContext` -/
+def encodeDirectCtx (F : Faults) (o : Opts) (c : Ctx) (e : Enc) (h : Hdr) (ds0 : Nat) (ms : List WMsg) : Enc × Ctx × Res :=
+  let r3 := encodeBodyCtx F o c e h ds0 ms
+  if r3.2.2 != .ok then r3 else
+  let r4 := updateFileHeader F r3.1 h ds0
+  (r4.1, r3.2.1, if r4.2.2 then .ok else .err)
+
+/-- the encoder together with the one thing a cancelled dry run left behind in the code as it was pinned (`CtxCfg.restoresWriter
+= false`): `calculateDataSizeWithContext` returned the context's error WITHOUT restoring `e.w` (and `e.n`), so the encoder kept
+writing to `io.Discard` — from then on, until `Reset`, no call issued any destination operation. With the repaired code the
+flag is never set. -/
+structure EncC where
+  e : Enc
+  discard : Bool := false
+  deriving Repr
+
+/-- does `calculateDataSizeWithContext` put `e.w` (and `e.n`) back when the dry run is cancelled (the repaired code, /repo 4876fc8)
+or return with `e.w == io.Discard` (the code as it was pinned: finding KF-C09-ctx-discard)? Both variants are modelled, as for
+`StreamCfg`; `pinnedCtxCfg` is the one the driver runs against /repo. -/
+structure CtxCfg where
+  restoresWriter : Bool
+  deriving Repr, DecidableEq
+
+/-- /repo/encoder/encoder.go as it is now -/
+def pinnedCtxCfg : CtxCfg := ⟨true⟩
+
+/-- `encodeWithEarlyCheckStrategyWithContext`; the flag: the encoder is left on `io.Discard` (the cancellation was observed in
+the dry run and the writer is not restored) -/
+def encodeEarlyCtx (cc : CtxCfg) (F : Faults) (o : Opts) (c : Ctx) (e : Enc) (h : Hdr) (ms : List WMsg) : Enc × Ctx × Res × Bool :=
+  match dryPassCtx o c e.es e.dataSize ms with
+  | (c', none) => (e, c', .ec, !cc.restoresWriter)   -- pinned: `e.w` stays `io.Discard`; `Encode…` resets the rest
+  | (c', some dry) =>
+    let r := encodeBodyCtx F o c' (e.reset o) h dry.1 dry.2
+    (r.1, r.2.1, r.2.2, false)
+
+/-- `EncodeWithContext` after `validateMessages` (as `encode`); on an encoder stuck on `io.Discard` the early-check strategy
+runs against `io.Discard`: no destination operation, success unless the context is cancelled within its `2·len` polls -/
+def encodeCtx (cc : CtxCfg) (F : Faults) (o : Opts) (c : Ctx) (x : EncC) (f : FitIn) : EncC × Res :=
+  if x.discard then
+    let polls := 2 * f.msgs.length
+    ({ x with e := x.e.reset o }, match c with
+      | some k => if k < polls then .ec else .ok
+      | none => .ok)
+  else
+    let r : Enc × Ctx × Res × Bool :=
+      if x.e.w.kind.direct then
+        let d := encodeDirectCtx F o c x.e f.hdr f.ds0 f.msgs
+        (d.1, d.2.1, d.2.2, false)
+      else encodeEarlyCtx cc F o c x.e f.hdr f.msgs
+    let e' := r.1.reset o
+    if r.2.2.1 != .ok then ({ e := e', discard := r.2.2.2 }, r.2.2.1)
+    else
+      let fl := e'.w.flush F
+      ({ e := { e' with w := fl.1 }, discard := false }, if fl.2 then .ok else .err)
+
+/-- `EncodeWithContext` with the validators in front (as `encodeV`; `c = none` is also what plain `Encode` does on an encoder
+that an earlier cancelled call left on `io.Discard`) -/
+def encodeCtxV {σ : Type} (V : MsgValidator σ) (cc : CtxCfg) (F : Faults) (o : Opts) (c : Ctx) (x : EncC) (f : FitIn) : EncC × Res :=
+  if f.msgs.isEmpty then (x, .ee)
+  else if !f.msgs.all (protoOK f.hdr.protoVer) then (x, .ep)
+  else
+    match validateAll V V.init f.msgs with
+    | none => (x, .ev)
+    | some ms' => encodeCtx cc F o c x { f with msgs := ms' }
+
+/-- number of context polls of one uncancelled `EncodeWithContext` of `n` messages -/
+def ctxPolls (kind : Kind) (n : Nat) : Nat := if kind.direct then n else 2 * n
 
 /-! ### crash states (what C11's crash-prefix theorems and the sweep's self-check are stated with) -/
 
